@@ -768,6 +768,14 @@ pub fn worker(case: &Value) -> Value {
             };
             let names: Vec<String> = igr.instructions.iter().map(|p| instr_name(&p.element)).collect();
             let out = run_generated(igr, types, &opts);
+            // a VM panic about one of its stacks (an underflow, an index into an emptied stack, no context state left) is
+            // the failure this property is about; any other internal failure is left to C08
+            if let End::Panic { file, msg, .. } = &out.end {
+                let m = msg.to_ascii_lowercase();
+                if file.contains("interpreter") && ["underflow", "stack", "pop", "empty", "index", "removal", "states", "registers"].iter().any(|w| m.contains(w)) && all.is_empty() {
+                    all.push((format!("C15|conformance|vm-stack-panic|{}", vcore::outcome::strip_digits(&truncate_text(msg, 60))), format!("the VM panicked in {}: {}", file, truncate_text(msg, 200))));
+                }
+            }
             if let Some(m) = &out.mon
                 && !matches!(out.end, End::Panic { .. })
             {
